@@ -1,54 +1,7 @@
-(* Line-oriented driver for the extracted models: one case per input line, one result per output line. *)
+(* Storage family: ST case lines evaluated on Store/Contract.v (stateful: ST RESET starts a fresh store). *)
 open BinNums
-open Varint
+open Drv_common
 module L = Stdlib.List
-
-let rec pos_of_int i = if i = 1 then Coq_xH else if i land 1 = 0 then Coq_xO (pos_of_int (i lsr 1)) else Coq_xI (pos_of_int (i lsr 1))
-let n_of_int i = if i = 0 then N0 else Npos (pos_of_int i)
-let rec int_of_pos = function Coq_xH -> 1 | Coq_xO p -> 2 * int_of_pos p | Coq_xI p -> 2 * int_of_pos p + 1
-let int_of_n = function N0 -> 0 | Npos p -> int_of_pos p
-
-let hexval c = match c with
-  | '0'..'9' -> Char.code c - 48 | 'a'..'f' -> Char.code c - 87 | 'A'..'F' -> Char.code c - 55
-  | _ -> failwith "hex"
-let bytes_of_hex (s : string) : coq_N list =
-  if s = "-" || s = "" then [] else begin
-    let n = String.length s / 2 in
-    let rec go i acc = if i < 0 then acc else go (i - 1) (n_of_int (hexval s.[2*i] * 16 + hexval s.[2*i+1]) :: acc) in
-    go (n - 1) []
-  end
-let hex_of_bytes (l : coq_N list) : string =
-  if l = [] then "-" else begin
-    let b = Buffer.create 64 in
-    L.iter (fun x -> Buffer.add_string b (Printf.sprintf "%02x" (int_of_n x))) l;
-    Buffer.contents b
-  end
-let split_on c s = if s = "" || s = "-" then [] else String.split_on_char c s
-let hexlist s = L.map bytes_of_hex (split_on ',' s)
-let opt_hex s = if s = "-" then None else Some (bytes_of_hex s)
-let show_opt = function None -> "-" | Some b -> hex_of_bytes b
-let show_list l = if l = [] then "-" else String.concat "," (L.map hex_of_bytes l)
-
-(* key=value tokens *)
-let kv toks = L.filter_map (fun t -> match String.index_opt t '=' with
-  | Some i -> Some (String.sub t 0 i, String.sub t (i+1) (String.length t - i - 1)) | None -> None) toks
-let get m k = try L.assoc k m with Not_found -> "-"
-
-(* relay oracle table: "in>key>printed" or "in>!" joined by ',' *)
-let relay_oracle (s : string) : coq_N list -> (coq_N list * coq_N list) option =
-  let tbl = L.map (fun e -> match String.split_on_char '>' e with
-      | [i; "!"] -> (bytes_of_hex i, None)
-      | [i; k; p] -> (bytes_of_hex i, Some (bytes_of_hex k, bytes_of_hex p))
-      | _ -> failwith "oracle") (split_on ',' s) in
-  fun b -> (try L.assoc b tbl with Not_found -> None)
-
-let show_ext (e : GroupDataExt.ext) =
-  Printf.sprintf "OK v=%d gid=%s name=%s descr=%s admins=%s relays=%s ih=%s ik=%s in=%s iu=%s"
-    (int_of_n e.version) (hex_of_bytes e.gid) (hex_of_bytes e.name) (hex_of_bytes e.descr)
-    (show_list e.admins) (show_list (L.map fst e.relays))
-    (show_opt e.ihash) (show_opt e.ikey) (show_opt e.inonce) (show_opt e.iupload)
-
-
 (* ------------------------------------------------------------------ storage contract (Store/Contract.v) *)
 module C = Contract
 let ni s = n_of_int (int_of_string s)
@@ -132,38 +85,5 @@ let handle_storage (t : string list) : string =
     st_state := s'; show_res opname r
   | [] -> "UNKNOWN-CASE"
 
-let handle (line : string) : string =
-  match String.split_on_char ' ' line with
-  | "EXTDEC" :: hex :: rest ->
-    let m = kv rest in
-    let orc = relay_oracle (get m "oracle") in
-    (match GroupDataExt.deserialize orc (bytes_of_hex hex) with
-     | Some e -> show_ext e
-     | None -> "ERR")
-  | "EXTENC" :: rest ->
-    let m = kv rest in
-    let orc = relay_oracle (get m "oracle") in
-    let relays = L.map (fun e -> match String.split_on_char '>' e with
-        | k :: p :: _ -> (bytes_of_hex k, bytes_of_hex p) | _ -> failwith "relay") (split_on ',' (get m "relays")) in
-    let e = { GroupDataExt.version = n_of_int (int_of_string (get m "v")); gid = bytes_of_hex (get m "gid");
-              name = bytes_of_hex (get m "name"); descr = bytes_of_hex (get m "descr");
-              admins = hexlist (get m "admins"); relays = relays;
-              ihash = opt_hex (get m "ih"); ikey = opt_hex (get m "ik"); inonce = opt_hex (get m "in");
-              iupload = opt_hex (get m "iu") } in
-    let _wf = GroupDataExt.wf orc e in
-    (match GroupDataExt.serialize e with
-     | Some b -> Printf.sprintf "OK rt=%b %s" (GroupDataExt.roundtrip_ok orc e) (hex_of_bytes b)
-     | None -> "ERR")
-  | "ST" :: rest -> handle_storage rest
-  | "VARINT" :: n :: _ ->
-    (match enc_len (n_of_int (int_of_string n)) with Some b -> "OK " ^ hex_of_bytes b | None -> "ERR")
-  | _ -> "UNKNOWN-CASE"
 
-let () =
-  try
-    while true do
-      let line = input_line stdin in
-      if line <> "" && line.[0] <> '#' then
-        print_endline (try handle line with Failure m -> "MODEL-FAIL " ^ m | Not_found -> "MODEL-FAIL notfound")
-    done
-  with End_of_file -> ()
+let () = register "ST" handle_storage
